@@ -1397,7 +1397,8 @@ func (d *DFA) determinize(cache *DFACache, current *State, b byte) (*State, erro
 	// Compute state key INCLUDING word context AND match delay flag.
 	// With match delay, the same NFA state set can produce both match and
 	// non-match DFA states (depending on whether the source had NFA match).
-	key := ComputeStateKeyWithWordAndMatch(nextNFAStates, nextIsFromWord, isMatch)
+	// The key is order-sensitive: the order of nextNFAStates is the threads' priority.
+	key := computeOrderedStateKey(nextNFAStates, nextIsFromWord, isMatch)
 
 	// Check if state already exists in cache
 	if existing, ok := cache.Get(key); ok {
